@@ -75,7 +75,7 @@ impl SignatureConverter<'_> {
                 let input = sig.inputs.first_mut().unwrap();
                 let input_span = input.span();
                 match input {
-                    syn::FnArg::Typed(pat_type) => match pat_type.ty.as_ref() {
+                    syn::FnArg::Typed(pat_type) => match peel_type(pat_type.ty.as_ref()) {
                         syn::Type::Reference(type_reference) => {
                             let and_token = type_reference.and_token;
                             let lifetime = type_reference.lifetime.clone();
@@ -190,6 +190,17 @@ impl SignatureConverter<'_> {
                     }
                 }
             }
+        }
+    }
+}
+
+/// `(T)` and the invisible group around a `$t:ty` macro fragment mean `T` (the dependency analysis looks through them too)
+fn peel_type(mut ty: &syn::Type) -> &syn::Type {
+    loop {
+        match ty {
+            syn::Type::Paren(paren) => ty = paren.elem.as_ref(),
+            syn::Type::Group(group) => ty = group.elem.as_ref(),
+            _ => return ty,
         }
     }
 }
